@@ -130,6 +130,11 @@ end
 
 /-! ## The untyped serialiser on interchange data -/
 
+/-- on interchange data (never an instance of a scalar subclass) `dynElem` is the untyped serialiser -/
+theorem dynElem_data (E : Ext) (dyn : Val → Except Exc Val) (x : Val) (hx : x.isData = true) :
+    dynElem E dyn x = dyn x := by
+  cases x <;> first | rfl | (simp [Val.isData] at hx)
+
 /-- loop body of the mapping case of `intoDynF` (named) -/
 theorem intoDynF_data (E : Ext) (classes : List (String × Conv)) (enums : List (String × List Val)) :
     ∀ (n : Nat) (v : Val), v.isData = true → v.depth < n → intoDynF E classes enums n v = .ok v
@@ -139,14 +144,16 @@ theorem intoDynF_data (E : Ext) (classes : List (String × Conv)) (enums : List 
     | list xs =>
       simp only [Val.isData] at hv; simp only [Val.depth] at hd
       simp only [intoDynF]
-      rw [exMapM_id xs (fun y hy => intoDynF_data E classes enums n y (Val.allData_iff.1 hv y hy)
-        (Nat.lt_of_le_of_lt (Val.depth_le_depthList hy) (Nat.lt_of_succ_lt_succ hd)))]
+      rw [exMapM_id xs (fun y hy => (dynElem_data E _ y (Val.allData_iff.1 hv y hy)).trans
+        (intoDynF_data E classes enums n y (Val.allData_iff.1 hv y hy)
+          (Nat.lt_of_le_of_lt (Val.depth_le_depthList hy) (Nat.lt_of_succ_lt_succ hd))))]
       rfl
     | tuple xs =>
       simp only [Val.isData] at hv; simp only [Val.depth] at hd
       simp only [intoDynF]
-      rw [exMapM_id xs (fun y hy => intoDynF_data E classes enums n y (Val.allData_iff.1 hv y hy)
-        (Nat.lt_of_le_of_lt (Val.depth_le_depthList hy) (Nat.lt_of_succ_lt_succ hd)))]
+      rw [exMapM_id xs (fun y hy => (dynElem_data E _ y (Val.allData_iff.1 hv y hy)).trans
+        (intoDynF_data E classes enums n y (Val.allData_iff.1 hv y hy)
+          (Nat.lt_of_le_of_lt (Val.depth_le_depthList hy) (Nat.lt_of_succ_lt_succ hd))))]
       rfl
     | dict kvs =>
       simp only [Val.isData, Bool.and_eq_true, List.all_eq_true] at hv; simp only [Val.depth] at hd
